@@ -1747,7 +1747,7 @@ def c01(tier, seed):
                     call(cand[0], "valid-I")
             for c in grp:
                 call(c["bytes"], "full-header-" + ("ufep0" if c["hdr"]["ufep"] == 0 else "I" if c["intra"] else "P"))
-        run.drive_and_validate(H.cmds, "TraceDecoder", group=hkey, sample=3, stat_fn=decode_stat, timeout_ms=10000,
+        run.drive_and_validate(H.cmds, "TraceDecoder", group=hkey, sample=3, stat_fn=decode_stat, timeout_ms=30000,
                                resync=lambda c: c["op"] == "new")
         nhist += H.n
         for c in H.cmds:
